@@ -394,7 +394,27 @@ def version_grid(tier):
 # ---------------------------------------------------------------------------------------------------------
 # regex inventory
 # ---------------------------------------------------------------------------------------------------------
+def _fold_with_escapes(model, node, module):
+    """fold a pattern expression in which every non-constant part is re.escape(<anything>): the escaped part is a
+    literal string at run time, represented by the literal 'x'.  None if some other part is not constant."""
+    class R(ast.NodeTransformer):
+        def visit_Call(self, n):
+            if dotted(n.func) == "re.escape":
+                return ast.copy_location(ast.Constant("x"), n)
+            return self.generic_visit(n)
+    import copy
+    n2 = R().visit(copy.deepcopy(node))
+    ast.fix_missing_locations(n2)
+    try:
+        v = model.fold(n2, module)
+    except NotConst:
+        return None
+    return v if isinstance(v, str) else None
+
+
 class RegexSite(object):
+    dynamic = None
+
     def __init__(self, pattern, where, lineno, how, name=None, module=None):
         self.pattern = pattern
         self.where = where
@@ -453,7 +473,12 @@ def regex_sites(model):
                 except NotConst as e:
                     if f.qname == "common.MetadataBase._assert_matches_re":
                         continue
-                    raise AnalysisError("regex pattern at %s cannot be folded: %s" % (f.module.site(node), e))
+                    # a pattern built from run-time data: try again with every re.escape(<expr>) replaced by a literal
+                    esc = _fold_with_escapes(model, node.args[0], f.module)
+                    site = RegexSite(esc if esc is not None else ast.unparse(node.args[0]), f.qname, node.lineno, d[3:], module=f.module.name)
+                    site.dynamic = "escaped" if esc is not None else "unescaped"
+                    out.append(site)
+                    continue
                 if isinstance(pat, RegexConst):
                     pat = pat.pattern
                 if not isinstance(pat, str):
